@@ -90,7 +90,7 @@ PROPERTIES = {
         "min_obligations": 1200,
     },
     "C13": {
-        "contracts": [dataset.DatasetSetItem, dataset.DatasetDelItem, dataset.DatasetRelabel, dataset.DatasetConstruct],
+        "contracts": [dataset.DatasetSetItem, dataset.DatasetDelItem, dataset.DatasetRelabel, dataset.DatasetDimsSetter, dataset.DatasetConstruct],
         "level": "proof",
         "min_obligations": 4000,
     },
